@@ -6,6 +6,7 @@ import (
 	storetypes "cosmossdk.io/store/types"
 	sdk "github.com/cosmos/cosmos-sdk/types"
 
+	cckeeper "github.com/functionx/fx-core/v8/x/crosschain/keeper"
 	cctypes "github.com/functionx/fx-core/v8/x/crosschain/types"
 
 	"fxmc/world"
@@ -35,4 +36,23 @@ func LastTxPoolID(w *world.World, ctx sdk.Context, chain string) uint64 {
 
 func LastBatchID(w *world.World, ctx sdk.Context, chain string) uint64 {
 	return LastID(w, ctx, chain, cctypes.KeyLastOutgoingBatchID)
+}
+
+// RestartFromExportedGenesis does to one crosschain module what a chain restart from an exported genesis does to it:
+// the state is exported with the real ExportGenesis, the module's store is emptied, and the export is imported with
+// the real InitGenesis.
+func RestartFromExportedGenesis(w *world.World, ctx sdk.Context, chain string) {
+	k := Keeper(w, chain)
+	gs := cckeeper.ExportGenesis(ctx, k)
+	store := Store(w, ctx, chain)
+	var keys [][]byte
+	it := store.Iterator(nil, nil)
+	for ; it.Valid(); it.Next() {
+		keys = append(keys, append([]byte(nil), it.Key()...))
+	}
+	it.Close()
+	for _, key := range keys {
+		store.Delete(key)
+	}
+	cckeeper.InitGenesis(ctx, k, gs)
 }
